@@ -16,8 +16,9 @@ What is within reach of function contracts, and is covered here:
   real table by the Sardinas-Patterson test (a finite decision procedure for unique decodability)
   plus the suffix rule - and fails (known finding, three kinds of collision).
 
-Not covered (stated in the manifest): the analyzer's symbol resolution (``_resolve_sym`` and
-friends), locals shadowing, inlining.
+The analyzer's symbol resolution (locals shadow Vars; bare / aliased / qualified spellings of a Var;
+private Vars) is in the second part, ``contracts/c10_analyzer.py``.  Not covered (stated in the
+manifest): resolution of Python names, inlining.
 """
 import z3
 
@@ -374,6 +375,9 @@ def build(active_known=frozenset()):
         if c.replay_ is None and not getattr(c, "spec_only", False):
             c.replay(lambda m, ctx, ob: NS_REPLAY)
             c.replay_without_model = True
+    from contracts import c10_analyzer
+
+    c10_analyzer.add_analyzer(pack, private)
     return pack
 
 
